@@ -136,8 +136,15 @@ C16_Log(L, R) ==                 \* the log lists the rails that ran, stop on ex
   IN /\ Len(rin) = Len(ain) /\ Len(rout) = Len(aout)
      /\ \A q \in 1..Len(ain)  : rin[q].a = ain[q].a   /\ (rin[q].b = 1 <=> ain[q].b = 1)
      /\ \A q \in 1..Len(aout) : rout[q].a = aout[q].a /\ (rout[q].b = 1 <=> aout[q].b = 1)
+C16_OutRan(L, o, sup, nout) ==   \* a selected output category does run on the supplied bot message: all rails in order unless one blocks
+  (o.set /\ o.output /\ sup /\ ~Rejected(L, IsActIn)) =>
+     LET acts == SelectSeq(L, IsActOut) IN
+     /\ Len(acts) <= nout
+     /\ \A q \in 1..Len(acts) : acts[q].a = q - 1
+     /\ (Len(acts) = nout \/ (Len(acts) >= 1 /\ acts[Len(acts)].b \in {1, 3}))
 JudgeOptions(L, R, o, sup, nin, nout, tn) ==
   [selected |-> C16_Selected(L, o),
+   outran   |-> C16_OutRan(L, o, sup, nout),
    inorder  |-> C01_Order(L, nin, o.input),
    inputonly |-> C16_InputOnly(L, o, tn),
    supplied |-> C16_Supplied(L, o, sup, tn),
